@@ -1006,3 +1006,19 @@ mod bench {
         b.iter(|| le_bytes_to_i32s(black_box(src_off), black_box(&mut dest), 2));
     }
 }
+
+#[cfg(flacenc_verif)]
+#[doc(hidden)]
+pub mod verif_hooks {
+    pub fn deinterleave(interleaved: &[i32], channels: usize, channel_stride: usize, dest: &mut [i32]) {
+        super::deinterleave(interleaved, channels, channel_stride, dest);
+    }
+
+    pub fn le_bytes_to_i32s(bytes: &[u8], dest: &mut [i32], bytes_per_sample: usize) {
+        super::le_bytes_to_i32s(bytes, dest, bytes_per_sample);
+    }
+
+    pub fn i32s_to_le_bytes(ints: &[i32], dest: &mut [u8], bytes_per_sample: usize) {
+        super::i32s_to_le_bytes(ints, dest, bytes_per_sample);
+    }
+}
